@@ -206,7 +206,9 @@ class CodeGenPreprocessor(ToIndexLambdaMixin, CopyMapper):  # type: ignore[misc]
                                             new_translation_unit, name, new_name)
                     name = new_name
 
-                self.kernels_seen[name] = clbl.subkernel
+                # (the kernel under the name it has *now*: comparing a later
+                # callee with this entry relies on 'kernels_seen[n].name == n')
+                self.kernels_seen[name] = new_translation_unit[name]
 
         # }}}
 
